@@ -188,6 +188,13 @@ def run(tier, seed, replay=None):
         lean_reqs.append("canon " + sexpr(raw))
         idx.append(i)
     lres = C.run_lean(lean_reqs)
+    # hypothesis of C13_canon_idem (`canonWF`, executable) evaluated on every block
+    wres = C.run_lean(["canonwf " + sexpr(dec[i][0]) for i in idx]) if idx else []
+    wf_of = {}
+    for i, w in zip(idx, wres):
+        wv = parse_sexpr(w)
+        if wv and wv[0] == "canonwf":
+            wf_of[i] = (wv[1] == "1", wv[2] == "1")
     headers = {}
     for i, resp in zip(idx, lres):
         text, grp, v = texts[i]
@@ -201,6 +208,14 @@ def run(tier, seed, replay=None):
         if model != can:
             rep.disagreements.append({**cj, "first_difference": list(tref.first_diff(can, model) or [])[-6:],
                                       "impl_generics": decl_can, "model_index": resp[:0]})
+        if i in wf_of:
+            wf_ok, m_idem = wf_of[i]
+            rep.count("canonWF=%d" % wf_ok)
+            if wf_ok and not m_idem:
+                rep.broken.append("instance of C13_canon_idem false in the executable model for " + text[:300])
+            if wf_ok and not idem:
+                # the theorem says the model is idempotent here; the real code is not: the correspondence must have failed too
+                rep.disagreements.append({**cj, "what": "canonWF holds (C13_canon_idem applies) but the real canonicalisation is not idempotent"})
         # ---------------- oracle
         fail = None
         dead_collision = False
